@@ -18,6 +18,9 @@
 (*                    taken for end-of-stream (the defect of the pinned    *)
 (*                    tree at d3 00 00); the design has FALSE              *)
 (*   nmeaB2  set of bytes accepted after '$'                               *)
+(*   sock    BOOLEAN  TRUE = the stream is a SocketWrapper: read(n) returns *)
+(*                    n bytes or nothing (UbxSocket), so a short tail is   *)
+(*                    seen as end-of-stream instead of a truncated read    *)
 (* acc: the protocol parser's verdict for a completed frame (used only in  *)
 (* the step that finishes a frame).                                        *)
 (***************************************************************************)
@@ -36,10 +39,10 @@ Tau == [t |-> "tau"]
 Got(s, S, n) == Min2(n, Len(S) - s.pos)
 
 \* classification of a read(n) result by _read_bytes
-ReadClass(s, S, n, zeroEof) ==
+ReadClass(s, S, n, zeroEof, sock) ==
     LET g == Got(s, S, n) IN
     IF g = 0 /\ (n > 0 \/ zeroEof) THEN "eof"
-    ELSE IF g < n THEN "short"
+    ELSE IF g < n THEN (IF sock THEN "eof" ELSE "short")
     ELSE "ok"
 
 \* readline(): up to and including the next LF, or whatever is left
@@ -52,8 +55,8 @@ ToErr(s, kind, newpos) == [s EXCEPT !.pc = "err", !.ekind = kind, !.pos = newpos
 
 \* a fixed-size read step shared by uh / ub / r3 / rp / rc
 ReadStep(s, S, C, n, okState) ==
-    LET g  == Got(s, S, n)
-        rc == ReadClass(s, S, n, C.zeroEof)
+    LET rc == ReadClass(s, S, n, C.zeroEof, C.sock)
+        g  == IF C.sock /\ rc = "eof" THEN 0 ELSE Got(s, S, n)
         ev == [t |-> "read", n |-> n, got |-> g]
     IN CASE rc = "eof"   -> [s |-> [s EXCEPT !.pc = "eofret"], ev |-> ev]
          [] rc = "short" -> [s |-> ToErr(s, "short", s.pos + g), ev |-> ev]
